@@ -45,6 +45,14 @@ def value(cname, k):
         return {'SO2': ref.rot2(math.pi), 'SE2': ref.rt(np.eye(2), (3.0, -1.0)), 'SO3': ref.rotx(math.pi), 'SE3': ref.rt(np.eye(3), (3.0, -1.0, 2.0)),
                 'Quaternion': np.array([-2.0, 0, 0, 0]), 'UnitQuaternion': np.array([0.0, 0, 1.0, 0]), 'Twist2': np.array([1.0, 2.0, 0.0]),
                 'Twist3': np.array([1.0, 2.0, 3.0, 0, 0, 0])}[cname].copy()
+    if k == 'N':        # just inside the other end of the angle range (-3 rad): next to 'P' (pi) the angle jumps by almost a full turn
+        return {'SO2': ref.rot2(-3.0), 'SE2': ref.rt(ref.rot2(-3.0), (1.0, 2.0)), 'SO3': ref.rotz(-3.0), 'SE3': ref.rt(ref.rotz(-3.0), (1.0, 2.0, 0.5)),
+                'Quaternion': np.array([0.5, 0, 0, -3.0]), 'UnitQuaternion': ref.r2q_ref(ref.rotz(-3.0)), 'Twist2': np.array([1.0, 2.0, -3.0]),
+                'Twist3': np.array([1.0, 2.0, 3.0, 0, 0, -3.0])}[cname].copy()
+    if k == 'Q':        # +3 rad
+        return {'SO2': ref.rot2(3.0), 'SE2': ref.rt(ref.rot2(3.0), (1.0, 2.0)), 'SO3': ref.rotz(3.0), 'SE3': ref.rt(ref.rotz(3.0), (1.0, 2.0, 0.5)),
+                'Quaternion': np.array([0.5, 0, 0, 3.0]), 'UnitQuaternion': ref.r2q_ref(ref.rotz(3.0)), 'Twist2': np.array([1.0, 2.0, 3.0]),
+                'Twist3': np.array([1.0, 2.0, 3.0, 0, 0, 3.0])}[cname].copy()
     a = 0.17 * k + 0.05
     if cname == 'SO2':
         return ref.rot2(a)
@@ -430,6 +438,18 @@ def unary(ctx, cname):
                     ctx.fail(cidm, site, 'raises:' + type(resm).__name__, dict(P, mixed=sk, pos=pos), '%s on %d values with a %s element at %d raised %r' % (an, M, sk, pos, resm))
                 else:
                     compare(ctx, cidm, site, dict(P, mixed=sk, pos=pos), resm, sing, M)
+            # consecutive values either side of the +-pi wrap point (3.0, -3.0, 3.0, ...): no value is adjusted to its neighbours
+            ksw = ['Q' if j % 2 == 0 else 'N' for j in range(M)]
+            cidw = cid + '/wrap'
+            if ctx.want(cidw):
+                oks, sing = call(lambda: [f(build(cname, [kk])) for kk in ksw])
+                if oks:
+                    ctx.case(cidw, key=cidw)
+                    okw, resw = call(f, build(cname, ksw))
+                    if not okw:
+                        ctx.fail(cidw, site, 'raises:' + type(resw).__name__, dict(P, mixed='wrap'), '%s on %d values alternating +3 / -3 rad raised %r' % (an, M, resw))
+                    else:
+                        compare(ctx, cidw, site, dict(P, mixed='wrap'), resw, sing, M)
         # the same object reached through a history during which the accessor had already been used (item assignment over a
         # decoy, reverse of a reversed copy, append + pop): the M results are those of the values it holds NOW
         for tag, X in hist.variants(build(cname, ks), f, fresh=False):
